@@ -569,8 +569,8 @@ func execServe(c Case, tmpRoot string) (obs serveObs) {
 		var ms []key
 		for j := top; j < len(toc); j++ {
 			m := toc[j]
-			if !isData(m) {
-				continue
+			if !isData(m) || (m.Type == "reg" && m.Size == 0) {
+				continue // an empty file has no payload in any member
 			}
 			if m.Offset != toc[top].Offset {
 				break
